@@ -162,6 +162,30 @@ Definition spec_parse_varint (b : bytes) : option (Z * nat) := parse_varint 10 b
 
 Fixpoint le_value (b : bytes) : Z := match b with [] => 0 | y :: t => y + 256 * le_value t end.
 
+(* the value that follows a tag (num, wt): (payload, bytes consumed) *)
+Definition parse_value (num wt : Z) (rest : bytes) : option (payload * nat) :=
+  match wt with
+  | 0 => match spec_parse_varint rest with
+         | Some (v, k) => Some (PVarint v, k)
+         | None => None
+         end
+  | 1 => if has_len_z rest 8 then Some (PFixed64 (le_value (firstn 8 rest)), 8%nat) else None
+  | 5 => if has_len_z rest 4 then Some (PFixed32 (le_value (firstn 4 rest)), 4%nat) else None
+  | 2 => match spec_parse_varint rest with
+         | Some (len, k) =>
+             let body := skipn k rest in
+             if negb (has_len_z body len) then None
+             else Some (PBytes (firstn (Z.to_nat len) body), (k + Z.to_nat len)%nat)
+         | None => None
+         end
+  | 3 => (* group: what the reference skipper accepts (balanced, depth limit) *)
+         let m := consume_field_value num 3 rest in
+         if m <? 0 then None else Some (PGroup, Z.to_nat m)
+  | _ => None
+  end.
+
+Definition valid_num (num : Z) : bool := (1 <=? num) && (num <=? 2 ^ 29 - 1).
+
 (* one token at the head of b: (token, bytes consumed) *)
 Definition parse_token (b : bytes) : option (token * nat) :=
   match spec_parse_varint b with
@@ -169,32 +193,11 @@ Definition parse_token (b : bytes) : option (token * nat) :=
   | Some (x, n) =>
       let num := x / 8 in
       let wt := x mod 8 in
-      if negb ((1 <=? num) && (num <=? 2 ^ 29 - 1)) then None else
+      if negb (valid_num num) then None else
       let rest := skipn n b in
-      match wt with
-      | 0 => match spec_parse_varint rest with
-             | Some (v, k) => Some ({| t_num := num; t_wt := 0; t_pay := PVarint v; t_raw := firstn k rest |}, (n + k)%nat)
-             | None => None
-             end
-      | 1 => if has_len_z rest 8
-             then Some ({| t_num := num; t_wt := 1; t_pay := PFixed64 (le_value (firstn 8 rest)); t_raw := firstn 8 rest |}, (n + 8)%nat)
-             else None
-      | 5 => if has_len_z rest 4
-             then Some ({| t_num := num; t_wt := 5; t_pay := PFixed32 (le_value (firstn 4 rest)); t_raw := firstn 4 rest |}, (n + 4)%nat)
-             else None
-      | 2 => match spec_parse_varint rest with
-             | Some (len, k) =>
-                 let body := skipn k rest in
-                 if negb (has_len_z body len) then None
-                 else Some ({| t_num := num; t_wt := 2; t_pay := PBytes (firstn (Z.to_nat len) body);
-                               t_raw := firstn (k + Z.to_nat len) rest |}, (n + k + Z.to_nat len)%nat)
-             | None => None
-             end
-      | 3 => (* group: what the reference skipper accepts (balanced, depth limit) *)
-             let m := consume_field_value num 3 rest in
-             if m <? 0 then None
-             else Some ({| t_num := num; t_wt := 3; t_pay := PGroup; t_raw := firstn (Z.to_nat m) rest |}, (n + Z.to_nat m)%nat)
-      | _ => None
+      match parse_value num wt rest with
+      | Some (p, k) => Some ({| t_num := num; t_wt := wt; t_pay := p; t_raw := firstn k rest |}, (n + k)%nat)
+      | None => None
       end
   end.
 
@@ -332,11 +335,14 @@ Definition cast_value (c : custom) (b : bytes) : option val :=
       end
   end.
 
-(* merge one token of a known field into the slot value *)
+(* merge one token of a known field into the slot value. The Go shape of the slot (slice,
+   pointer / oneof wrapper, plain value) is the one protoc-gen-pico chooses for the field. *)
 Definition apply_known (m : mdesc) (slot : nat) (f : fdesc) (t : token) (fs : list val) : option (list val) :=
+  let i := field_info s f in
   let cur := nth slot fs (VInt 0) in
   let fs0 := clear_siblings m f slot fs in
   let put v := Some (set_nth fs0 slot v) in
+  let boxed := i_oneof i || i_pointer i in
   match f_custom f, fty f with
   | COpaque, _ => None
   | (CTimestamp | CDuration), _ =>
@@ -345,53 +351,49 @@ Definition apply_known (m : mdesc) (slot : nat) (f : fdesc) (t : token) (fs : li
           match cast_value (f_custom f) b with
           | None => None
           | Some x =>
-              match cur with
-              | VOpt _ => put (VOpt (Some x))
-              | VList l => put (VList (l ++ [if i_pointer (field_info s f) then VOpt (Some x) else x]))
-              | _ => put x
-              end
+              if i_repeated i then put (VList (as_list cur ++ [if i_pointer i then VOpt (Some x) else x]))
+              else if boxed then put (VOpt (Some x))
+              else put x
           end
       | _ => None
       end
   | CNone, (TScalar _ | TEnum) =>
       let k := kind_of_ftype (fty f) in
-      match cur with
-      | VList l =>
-          match tok_scalar k t with
-          | Some x => put (VList (l ++ [x]))
-          | None =>
-              match t_pay t with
-              | PBytes b => if is_bytes_kind k then None else
-                            match unpack (S (length b)) k b with Some xs => put (VList (l ++ xs)) | None => None end
-              | _ => None
-              end
-          end
-      | VOpt _ => match tok_scalar k t with Some x => put (VOpt (Some x)) | None => None end
-      | _ => match tok_scalar k t with Some x => put x | None => None end
-      end
+      if i_repeated i then
+        match tok_scalar k t with
+        | Some x => put (VList (as_list cur ++ [x]))
+        | None =>
+            match t_pay t with
+            | PBytes b => if is_bytes_kind k then None else
+                          match unpack (S (length b)) k b with Some xs => put (VList (as_list cur ++ xs)) | None => None end
+            | _ => None
+            end
+        end
+      else match tok_scalar k t with Some x => put (if boxed then VOpt (Some x) else x) | None => None end
   | CNone, TMsg idx =>
       match t_pay t with
       | PBytes b =>
-          match cur with
-          | VMsg o =>
-              match rec idx b (match o with Some x => x | None => zero_of idx end) with
-              | Some x => put (VMsg (Some x)) | None => None end
-          | VEmb fs1 u1 =>
-              match rec idx b (fs1, u1) with Some x => put (VEmb (fst x) (snd x)) | None => None end
-          | VList l =>
-              match rec idx b (zero_of idx) with
-              | Some x => put (VList (l ++ [if i_pointer (field_info s f) then VMsg (Some x) else VEmb (fst x) (snd x)]))
-              | None => None
-              end
-          | _ => None
-          end
+          if i_repeated i then
+            match rec idx b (zero_of idx) with
+            | Some x => put (VList (as_list cur ++ [if i_pointer i then VMsg (Some x) else VEmb (fst x) (snd x)]))
+            | None => None
+            end
+          else if i_pointer i then
+            match rec idx b (match cur with VMsg (Some x) => x | _ => zero_of idx end) with
+            | Some x => put (VMsg (Some x)) | None => None end
+          else
+            match rec idx b (match cur with VEmb fs1 u1 => (fs1, u1) | _ => zero_of idx end) with
+            | Some x => put (VEmb (fst x) (snd x)) | None => None end
       | _ => None
       end
   | CNone, TMap kk vk =>
-      match t_pay t, cur with
-      | PBytes b, VMap l =>
-          match map_entry_of kk vk b with Some (k, v) => put (VMap (spec_map_set l k v)) | None => None end
-      | _, _ => None
+      match t_pay t with
+      | PBytes b =>
+          match map_entry_of kk vk b with
+          | Some (k, v) => put (VMap (spec_map_set (match cur with VMap l => l | _ => [] end) k v))
+          | None => None
+          end
+      | _ => None
       end
   | CNone, TMapOther => None
   end.
